@@ -394,7 +394,7 @@ namespace trompeloeil {
 #define TROMPELOEIL_IN_SEQUENCE(...)                                           \
   in_sequence(TROMPELOEIL_INIT_WITH_STR(::trompeloeil::sequence_matcher::init_type, __VA_ARGS__))
 
-#ifndef TROMPELOEIL_LONG_MACRCOS
+#ifndef TROMPELOEIL_LONG_MACROS
 #define IN_SEQUENCE               TROMPELOEIL_IN_SEQUENCE
 #endif
 
